@@ -363,6 +363,13 @@ func runC05(cfg *config) *Report {
 					}
 				}
 			}
+			if !e.EBCDIC {
+				// structural faults: every record deleted / duplicated, every cut, a sample of moves, whole containers
+				// repeated or removed - the reader's state machine on sequences it was not written for
+				for _, fc := range singleFaults(recs, map[string][]byte{}, nil, cfg.tier == "thorough", r) {
+					rcases = append(rcases, rcase{join(fc.lines), e, "structural fault: " + fc.desc})
+				}
+			}
 			if e.LP {
 				// lying prefixes
 				for j := 0; j < 12; j++ {
